@@ -157,7 +157,8 @@ pub fn run_gdt(r: &mut Rep) {
     one::<8192>(r, 9000);
     // histories over two static tables x {load, load_unsafe}, and append;load_unsafe interleavings on one table
     {
-        let a: &'static GlobalDescriptorTable = Box::leak(Box::new({ let mut g = GlobalDescriptorTable::new(); g.append(Descriptor::kernel_code_segment()); g }));
+        // descriptors whose accessed bit is clear, and arbitrary words: loading must leave the table's contents alone
+        let a: &'static GlobalDescriptorTable = Box::leak(Box::new({ let mut g = GlobalDescriptorTable::new(); g.append(Descriptor::UserSegment(0x0020_9800_0000_0000)); g.append(Descriptor::UserSegment(0x0000_9200_0000_ffff)); g.append(Descriptor::SystemSegment(0x0000_8900_0000_0067, 0x0000_9000_0000_0000)); g }));
         let b: &'static GlobalDescriptorTable = Box::leak(Box::new({ let mut g = GlobalDescriptorTable::new(); g.append(Descriptor::kernel_code_segment()); g.append(Descriptor::SystemSegment(0x0000_8900_0000_0067, 0)); g }));
         let tabs = [a, b];
         for len in 1..=4u32 {
@@ -166,9 +167,14 @@ pub fn run_gdt(r: &mut Rep) {
                 r.ev(len > 1);
                 for (i, &op) in ops.iter().enumerate() {
                     let t = tabs[(op & 1) as usize];
+                    let before: Vec<u64> = t.entries().iter().map(|e| e.raw()).collect();
                     cpu().clear_events();
                     let _ = run_stepped(|| if op & 2 == 0 { t.load() } else { unsafe { t.load_unsafe() } });
                     let ev = cpu().evs();
+                    if t.entries().iter().map(|e| e.raw()).collect::<Vec<u64>>() != before {
+                        r.viol("C14|load|loading-changes-the-contents-of-the-table", &format!("gdtload history {:?} step {}", ops, i), &format!("{:x?} -> {:x?}", before, t.entries().iter().map(|e| e.raw()).collect::<Vec<u64>>()));
+                        break;
+                    }
                     if !(ev.len() == 1 && matches!(ev[0], Ev::Lgdt(l, bb, _) if l == t.limit() && bb == t.entries().as_ptr() as u64)) {
                         r.viol("C14|load-history|a-load-after-earlier-loads-does-not-execute-one-lgdt-of-its-own-table", &format!("gdtload history {:?} step {}", ops, i), &format!("{:x?}", ev));
                         break;
